@@ -343,7 +343,7 @@ def run_check(prop, tier, plan, seed):
                 m = reply["min_trace"]
                 v = reply["report"]["violations"][0]
                 m["expect"] = {"oracle": v["oracle"], "op": v.get("op"), "at_op": v["at_op"],
-                               "what": v["what"], "detail": v["detail"]}
+                               "what": v["what"], "detail": v["detail"], "tags": v.get("tags", [])}
                 m["jit"] = bool(task.get("_jit"))
                 from .registry import trace_digest
 
